@@ -99,6 +99,60 @@ def D2(m, R):
 # --------------------------------------------------------------------------------------------------------
 # D3: AnsiStr twins
 
+def _desugar_wrapped(node, wrapped):
+    """len(W) -> W.__len__(), W[x] -> W.__getitem__(x), v in W -> W.__contains__(v), W == v, W + v, str(W), format(W, s), iter(W);
+    list(map(F, X)) -> [F(x) for x in X]"""
+    def is_w(e):
+        return norm(e) == wrapped
+
+    def mk(recv, meth, args, at):
+        return ast.copy_location(ast.Call(func=ast.Attribute(value=recv, attr=meth, ctx=ast.Load()), args=args, keywords=[]), at)
+
+    class T(ast.NodeTransformer):
+        def visit_Call(self, n):
+            self.generic_visit(n)
+            if isinstance(n.func, ast.Name) and not n.keywords:
+                m_ = {'len': '__len__', 'str': '__str__', 'iter': '__iter__', 'repr': '__repr__'}.get(n.func.id)
+                if m_ and len(n.args) == 1 and is_w(n.args[0]):
+                    return mk(n.args[0], m_, [], n)
+                if n.func.id == 'format' and len(n.args) == 2 and is_w(n.args[0]):
+                    return mk(n.args[0], '__format__', [n.args[1]], n)
+                if n.func.id in ('list', 'tuple') and len(n.args) == 1 and isinstance(n.args[0], ast.Call) and isinstance(n.args[0].func, ast.Name) and \
+                        n.args[0].func.id == 'map' and len(n.args[0].args) == 2:
+                    fn_, it_ = n.args[0].args
+                    comp = ast.ListComp(elt=ast.Call(func=fn_, args=[ast.Name(id='x_', ctx=ast.Load())], keywords=[]),
+                                        generators=[ast.comprehension(target=ast.Name(id='x_', ctx=ast.Store()), iter=it_, ifs=[], is_async=0)])
+                    comp = ast.copy_location(comp, n)
+                    if n.func.id == 'tuple':
+                        return ast.copy_location(ast.Call(func=n.func, args=[comp], keywords=[]), n)
+                    return comp
+            return n
+
+        def visit_Subscript(self, n):
+            self.generic_visit(n)
+            if is_w(n.value) and isinstance(n.ctx, ast.Load):
+                return mk(n.value, '__getitem__', [n.slice], n)
+            return n
+
+        def visit_Compare(self, n):
+            self.generic_visit(n)
+            if len(n.ops) == 1:
+                if isinstance(n.ops[0], ast.In) and is_w(n.comparators[0]):
+                    return mk(n.comparators[0], '__contains__', [n.left], n)
+                if isinstance(n.ops[0], ast.Eq) and is_w(n.left):
+                    return mk(n.left, '__eq__', [n.comparators[0]], n)
+            return n
+
+        def visit_BinOp(self, n):
+            self.generic_visit(n)
+            if isinstance(n.op, ast.Add) and is_w(n.left):
+                return mk(n.left, '__add__', [n.right], n)
+            return n
+    node = T().visit(node)
+    ast.fix_missing_locations(node)
+    return node
+
+
 def _twin_call_problems(call, twin, sfunc, want_inplace):
     """`call` invokes the AnsiString twin `twin`; sfunc is the AnsiStr method.  Every AnsiStr parameter must be passed to the
     same-named twin parameter unchanged; nothing else may be passed except inplace=True."""
@@ -131,7 +185,7 @@ def _twin_call_problems(call, twin, sfunc, want_inplace):
             problems.append('inplace is not passed: the twin works on yet another copy and the result is discarded')
         elif const_val(bound['inplace'], None) is not True:
             problems.append('inplace=%s, must be True' % short(bound['inplace']))
-    elif 'inplace' in bound:
+    elif 'inplace' in bound and 'inplace' not in twin.own_params() + twin.kwonly:
         problems.append('passes inplace to a twin without such a parameter')
     return problems
 
@@ -152,6 +206,7 @@ def D3(m, R):
     S = m.cls('AnsiStr')
     A = m.cls('AnsiString')
     W = ro.WRAPPED
+    from ..model import Func, astcopy
     for name, sf in S.methods.items():
         if name not in A.methods or name in ('__new__', '__init__'):
             continue
@@ -159,6 +214,14 @@ def D3(m, R):
         cons = 'AnsiStr.%s twin' % name
         selfn = sf.self_name
         wrapped = '%s.%s' % (selfn, W) if selfn else None
+        # operators and built-ins applied to the wrapped string are its special methods: write them as such before matching
+        if wrapped:
+            node2 = _desugar_wrapped(astcopy(sf.node), wrapped)
+            for parent in ast.walk(node2):
+                for child in ast.iter_child_nodes(parent):
+                    child._parent = parent
+            node2._parent = getattr(sf.node, '_parent', None)
+            sf = Func(sf.mod, sf.cls, node2)
         body = sf.body
         tw_inplace = 'inplace' in tw.own_params() + tw.kwonly
         tw_mutator = not _returns_value(tw)
@@ -248,6 +311,19 @@ def D3(m, R):
             continue
         if expr is None:
             R.undecided(sf, sf.node, 'twin form not recognised', construct=cons)
+            continue
+        # form (i'): the twin is itself a plain delegation to the text (D1) and this method delegates to the same text directly
+        if isinstance(expr, ast.Call) and isinstance(expr.func, ast.Attribute) and expr.func.attr == name and \
+                norm(expr.func.value) in ('%s.base_str' % selfn, '%s.base_str' % wrapped, '%s.%s' % (wrapped, ro.TEXT)):
+            tex_, _ = single_return(tw)
+            twin_delegates = isinstance(tex_, ast.Call) and isinstance(tex_.func, ast.Attribute) and tex_.func.attr == name and \
+                norm(tex_.func.value) == '%s.%s' % (tw.self_name, ro.TEXT) and [norm(a) for a in tex_.args] == tw.own_params() and not tex_.keywords
+            pr_ = []
+            if not twin_delegates:
+                pr_.append('calls the text\'s %s directly although AnsiString.%s is not a plain delegation to it' % (name, name))
+            elif [norm(a) for a in expr.args] != sf.own_params() or expr.keywords or sf.own_params() != tw.own_params():
+                pr_.append('arguments (%s) differ from the parameters (%s)' % (', '.join(norm(a) for a in expr.args), ', '.join(sf.own_params())))
+            R.check(not pr_, sf, ret, 'delegates to the same str method of the text as AnsiString.%s does' % name, '; '.join(pr_), construct=cons)
             continue
         # form (i): return self.W.<same>(params)   (queries / renderers)
         if is_wrapped_call(expr):
@@ -509,6 +585,24 @@ def D4(m, R):
                                 pass
                     if st.targets[0].id not in ('r', 'g', 'b') + tuple(f.params):
                         env[st.targets[0].id] = subst(v_, env)
+                elif isinstance(st, ast.Expr) and isinstance(st.value, ast.Call) and isinstance(st.value.func, ast.Attribute) and \
+                        isinstance(st.value.func.value, ast.Name) and isinstance(env.get(st.value.func.value.id), ast.List) and st.value.args:
+                    # the result list is built step by step
+                    L_ = env[st.value.func.value.id]
+                    a0_ = subst(st.value.args[0], env)
+                    if st.value.func.attr == 'append':
+                        env[st.value.func.value.id] = ast.List(elts=list(L_.elts) + [a0_], ctx=ast.Load())
+                    elif st.value.func.attr == 'extend' and isinstance(a0_, (ast.List, ast.Tuple)):
+                        env[st.value.func.value.id] = ast.List(elts=list(L_.elts) + list(a0_.elts), ctx=ast.Load())
+                    elif st.value.func.attr == 'insert' and len(st.value.args) == 2 and const_val(st.value.args[0], None) == 0:
+                        env[st.value.func.value.id] = ast.List(elts=[subst(st.value.args[1], env)] + list(L_.elts), ctx=ast.Load())
+                    else:
+                        raise Undecided('list operation %s' % short(st))
+                elif isinstance(st, ast.AugAssign) and isinstance(st.target, ast.Name) and isinstance(env.get(st.target.id), ast.List) and isinstance(st.op, ast.Add):
+                    a0_ = subst(st.value, env)
+                    if not isinstance(a0_, (ast.List, ast.Tuple)):
+                        raise Undecided('list operation %s' % short(st))
+                    env[st.target.id] = ast.List(elts=list(env[st.target.id].elts) + list(a0_.elts), ctx=ast.Load())
             return None
         from ..finite import Undecided
         from ..shapes import subst
